@@ -71,3 +71,41 @@ pub proof fn lemma_periods_nest(a: Zoned, b: Zoned)
         same_half_year(a, b) ==> same_year(a, b),
 {
 }
+
+// ---- L09: raising a keep count never removes a snapshot that was kept before ----
+// One rule, processed newest-first over k snapshots.  `fired[k]` (is snapshot k the newest of its
+// period / any snapshot for keep-last) does not depend on the counter.  The one-step relation below
+// (kept iff fired with a counter != 0; a positive counter is used up; negative = unlimited) is exactly
+// the contract the Kani harness c09_matches_rule_table proves for KeepOptions::matches.
+pub open spec fn step_counter(c: int, fired: bool) -> int { if fired && c > 0 { c - 1 } else { c } }
+pub open spec fn step_kept(c: int, fired: bool) -> bool { fired && c != 0 }
+
+pub open spec fn counter_at(fired: Seq<bool>, c0: int, k: int) -> int
+    decreases k
+{
+    if k <= 0 { c0 } else { step_counter(counter_at(fired, c0, k - 1), fired[k - 1]) }
+}
+
+pub open spec fn kept_at(fired: Seq<bool>, c0: int, k: int) -> bool {
+    step_kept(counter_at(fired, c0, k), fired[k])
+}
+
+// "more generous": a bigger count, or unlimited (negative)
+pub open spec fn more_generous(c: int, d: int) -> bool { d < 0 || (0 <= c <= d) }
+
+pub proof fn lemma_counter_monotone(fired: Seq<bool>, c0: int, d0: int, k: int)
+    requires more_generous(c0, d0), 0 <= k <= fired.len(),
+    ensures more_generous(counter_at(fired, c0, k), counter_at(fired, d0, k)),
+    decreases k
+{
+    if k > 0 {
+        lemma_counter_monotone(fired, c0, d0, k - 1);
+    }
+}
+
+pub proof fn lemma_raising_keep_count_keeps_more(fired: Seq<bool>, c0: int, d0: int, k: int)
+    requires more_generous(c0, d0), 0 <= k < fired.len(), kept_at(fired, c0, k),
+    ensures kept_at(fired, d0, k),
+{
+    lemma_counter_monotone(fired, c0, d0, k);
+}
